@@ -155,8 +155,16 @@ class Interp:
             from .builtins_model import call_method
 
             return call_method(self, st, f.recv, f.name, args, kwargs)
+        from .protocol import OpaqueCall
+
+        if isinstance(f, OpaqueCall):
+            return f.proto.call(self, st, f.recv, f.name, args, kwargs)
         if isinstance(f, SOpaque):
             return self.task.call_opaque(self, st, f, args, kwargs)
+        if isinstance(f, type):
+            r = self.task.construct(self, st, f, args, kwargs, site)
+            if r is not NotImplemented:
+                return r
         if isinstance(f, Sym):
             raise Unsupported(f"call of {f!r}")
         from .builtins_model import call_builtin
@@ -735,7 +743,7 @@ class Interp:
     def e_Set(self, st, e, fr):
         vals = [self.eval(st, x, fr) for x in e.elts]
         if _all_concrete(vals):
-            return frozenset(vals)
+            return set(vals)
         raise Unsupported("set display with symbolic members")
 
     def e_Dict(self, st, e, fr):
@@ -1001,6 +1009,13 @@ class Interp:
 
     def contains(self, st, container, x):
         container = st.force(container)
+        if isinstance(container, SOpaque):
+            from .api import PROTOCOLS
+
+            p = PROTOCOLS.get(container.kind)
+            if p is not None and hasattr(p, "contains"):
+                return p.contains(st, container, x)
+            raise Unsupported(f"'in' on opaque {container.kind}")
         if isinstance(container, SRange):
             return container.contains(st.force(x))
         if isinstance(container, range):
@@ -1142,6 +1157,10 @@ class Interp:
     def setattr(self, st, obj, name, value, fr=None):
         obj = st.force(obj)
         if isinstance(obj, SObj):
+            if name in obj.fields and name in getattr(obj.shape, "fields", {}):
+                self.task.on_field_write(self, st, obj, name, value)
+                obj.fields[name] = value
+                return
             cls, ref = SRC.mro_lookup(obj.cls, name, "setter")
             if cls is not None and ref is not None and ref.role == "setter":
                 self.call_fnval(st, FnVal(ref, None, obj, cls), [value], {})
